@@ -626,6 +626,56 @@ Qed.
 
 End Random.
 
+(* the three theorems of Section Random with all premises in statement order *)
+Theorem irv_majority_random_runs_flat :
+  forall cfg (p : profile) (c : cand) t (kz : Z) (s : mstate) (l : list ranking) rest,
+  wf_stv_profile p -> integral_weights p ->
+  s_quota cfg = QDroop -> s_transfer cfg = TRandom -> s_m cfg = 1%Z ->
+  In c (cands p) -> stv_init cfg p = inl t ->
+  total_wt (ballots p) < 2 * tally c (ballots p) ->
+  inject_Z kz == tally c (ballots p) - t ->
+  script_ok s ->
+  tally c (ballots p) - t <= wt_where (transferable c) (ballots p) ->
+  scr s = DRanks l :: rest ->
+  valid_ballot_sample cand ceqb (rt_pop c (ballots p)) kz l = true ->
+  exists out s', run_stv cfg p s = inl (out, s') /\ scr s' = rest /\
+    flat (elected_upto out (length out - 1)) = [c] /\
+    length out = 2%nat /\ Forall (fun st => tiebreaks st = []) out.
+Proof.
+  intros cfg p c t kz s l rest H1 H2 H3 H4 H5 H6 H7 H8 H9 H10 H11 H12 H13.
+  exact (irv_majority_random_runs cfg p c t kz H1 H2 H3 H4 H5 H6 H7 H8 H9 s l rest H10 H11 H12 H13).
+Qed.
+
+Theorem irv_majority_random_shortage_flat :
+  forall cfg (p : profile) (c : cand) t (kz : Z) (s : mstate),
+  wf_stv_profile p -> integral_weights p ->
+  s_quota cfg = QDroop -> s_transfer cfg = TRandom -> s_m cfg = 1%Z ->
+  In c (cands p) -> stv_init cfg p = inl t ->
+  total_wt (ballots p) < 2 * tally c (ballots p) ->
+  inject_Z kz == tally c (ballots p) - t ->
+  wt_where (transferable c) (ballots p) < tally c (ballots p) - t ->
+  run_stv cfg p s = inr EValue.
+Proof.
+  intros cfg p c t kz s H1 H2 H3 H4 H5 H6 H7 H8 H9 H10.
+  exact (irv_majority_random_shortage cfg p c t kz H1 H2 H3 H4 H5 H6 H7 H8 H9 s H10).
+Qed.
+
+Theorem irv_majority_random_bad_script_flat :
+  forall cfg (p : profile) (c : cand) t (kz : Z) (s : mstate),
+  wf_stv_profile p -> integral_weights p ->
+  s_quota cfg = QDroop -> s_transfer cfg = TRandom -> s_m cfg = 1%Z ->
+  In c (cands p) -> stv_init cfg p = inl t ->
+  total_wt (ballots p) < 2 * tally c (ballots p) ->
+  inject_Z kz == tally c (ballots p) - t ->
+  tally c (ballots p) - t <= wt_where (transferable c) (ballots p) ->
+  (forall l rest, scr s = DRanks l :: rest ->
+     valid_ballot_sample cand ceqb (rt_pop c (ballots p)) kz l = false) ->
+  run_stv cfg p s = inr EScript.
+Proof.
+  intros cfg p c t kz s H1 H2 H3 H4 H5 H6 H7 H8 H9 H10 H11.
+  exact (irv_majority_random_bad_script cfg p c t kz H1 H2 H3 H4 H5 H6 H7 H8 H9 s H10 H11).
+Qed.
+
 (* every failure of a one-seat Droop count with a strict-majority candidate *)
 Theorem irv_majority_errors : forall cfg (p : profile) (c : cand) t (kz : Z) (s : mstate) e,
   wf_stv_profile p -> integral_weights p ->
